@@ -38,6 +38,11 @@ VARIANTS = {
     'newdef': _variant(s=('string', 'sdef2', None)),                  # a default changes
     'imax': _variant(i=('integer', '3', (0, 4))),                     # only the upper bound of an integer option moves
     'imin': _variant(i=('integer', '7', (5, 10))),                    # only the lower bound moves (and the default with it)
+    # COMPOSITE edits: ONE edit of the file that removes an option and adds options at the same time (#added >= #removed
+    # from `base`; after `edit add` the same variants remove two options and add fewer or as many)
+    'rename': _variant(r=None, r2=('string', 'rdef', None)),          # an option renamed (same type, same default)
+    'swap': _variant(r=None, q=('integer', '5', (0, 9))),             # an option replaced by one of another type
+    'rm1add2': _variant(r=None, n=('string', 'ndef', None), n2=('boolean', 'true', None)),   # one removed, two added
 }
 # The subproject's option file has variants of its own (an `edit sub X` command writes variant X, then reconfigures).
 # s, c and i are declared `yield: true` and have a top-level option of the same name and type in every top-level variant.
@@ -66,6 +71,10 @@ SUB_VARIANTS = {
     'imax': _subvariant(i=('integer', '2', (0, 5))),                  # yielding integer: an own 7 becomes invalid
     'imin': _subvariant(i=('integer', '6', (5, 10))),                 # ... an own 7 stays valid (1 would not)
     'nofile': None,                                                   # the whole option file deleted: every option removed
+    # COMPOSITE edits (see VARIANTS)
+    'rename': _subvariant(o=None, o2=('string', 'odef', None)),
+    'swap': _subvariant(o=None, q=('combo', 'x', ['x', 'y'])),
+    'rm1add2': _subvariant(o=None, m=('string', 'mdef', None), m2=('integer', '4', (0, 9))),
 }
 
 
@@ -200,6 +209,24 @@ ALPHABET = [
     C('edit ab + configure -Dr=r1', 'editconf', [('r', 'r1')], variant='ab', tiers='t'),
     C('edit sub ab + configure -Dr=r1', 'editconf', [('r', 'r1')], subvariant='ab', tiers='t'),
     C('edit sub ca + configure -Dr=r1', 'editconf', [('r', 'r1')], subvariant='ca', tiers='t'),
+    # ---- the composite-edit family (tiers='': not part of the BFS alphabet, see composite_family) -----------------------
+    C('edit rename', 'edit', variant='rename', tiers=''),
+    C('edit swap', 'edit', variant='swap', tiers=''),
+    C('edit rm1add2', 'edit', variant='rm1add2', tiers=''),
+    C('edit sub rename', 'edit', subvariant='rename', tiers=''),
+    C('edit sub swap', 'edit', subvariant='swap', tiers=''),
+    C('edit sub rm1add2', 'edit', subvariant='rm1add2', tiers=''),
+    C('edit rename + configure -Ds=s1', 'editconf', [('s', 's1')], variant='rename', tiers=''),
+    C('edit swap + configure -Ds=s1', 'editconf', [('s', 's1')], variant='swap', tiers=''),
+    C('edit rm1add2 + configure -Ds=s1', 'editconf', [('s', 's1')], variant='rm1add2', tiers=''),
+    C('edit sub rename + configure -Ds=s1', 'editconf', [('s', 's1')], subvariant='rename', tiers=''),
+    C('edit sub swap + configure -Ds=s1', 'editconf', [('s', 's1')], subvariant='swap', tiers=''),
+    C('edit sub rm1add2 + configure -Ds=s1', 'editconf', [('s', 's1')], subvariant='rm1add2', tiers=''),
+    C('edit sub nofile + configure -Ds=s1', 'editconf', [('s', 's1')], subvariant='nofile', tiers=''),
+    C('edit base + configure -Ds=s2', 'editconf', [('s', 's2')], variant='base', tiers=''),
+    C('edit sub base + configure -Ds=s2', 'editconf', [('s', 's2')], subvariant='base', tiers=''),
+    C('configure -Dr2=x2', 'configure', [('r2', 'x2')], tiers=''),       # the option a rename creates (unknown anywhere else)
+    C('configure -Dsub:o2=y2', 'configure', [('sub:o2', 'y2')], tiers=''),
     C('fail configure invalid', 'configure', FAILD + [('c', 'zzz')], inject='invalid-value'),
     C('fail reconfigure boom', 'reconfigure', FAILD + [('boom', 'true')], inject='error()'),
     C('fail reconfigure late', 'reconfigure', FAILD + [('late', 'true')], inject='postconf-script'),
@@ -367,9 +394,12 @@ def _fails_in_build_files(m):
     return m['top'].get('boom') == 'true' or m['top'].get('late') == 'true'
 
 
-def model_step(m, cmd):
+def model_step(m, cmd, strict_unknown=False):
     """-> (expected, m2): expected in 'ok' | 'fail' | 'any' (docs do not say whether the command succeeds; no effect
-    either way).  Raises Unspecified for cells the docs are silent about."""
+    either way).  Raises Unspecified for cells the docs are silent about.
+    strict_unknown (composite-edit family): `meson configure -Dk=v` for a project option that no option file declares
+    (any more) must fail - "Passing unknown options to "meson setup" or "meson configure" is now always fatal. That is,
+    Meson will exit with an error code" (Release-notes-for-0.60.0.md) - and, failing, leave everything as it was."""
     kind = cmd['kind']
     m2 = copy.deepcopy(m)
     if kind == 'edit':
@@ -396,7 +426,13 @@ def model_step(m, cmd):
         # ... This has the same behaviour as `meson configure <builddir> -Dopt=value`" (Commands.md)
         expect = 'ok'
         for k, v in cmd['D']:
-            if not _set(m2, k, v):
+            try:
+                valid = _set(m2, k, v)
+            except Unspecified:
+                if strict_unknown and cmd['kind'] == 'configure':
+                    return 'fail', m
+                raise
+            if not valid:
                 return 'fail', m
             if k.startswith('sub2:'):
                 expect = 'any'                          # docs silent on an option of a subproject not configured (yet)
@@ -744,7 +780,7 @@ def _flat(s):
     return ' '.join(s.split())
 
 
-def judge(m, prev, cmd, res, hist, taint=()):
+def judge(m, prev, cmd, res, hist, taint=(), strict_unknown=False):
     """prev = outcome dict of the source state (its pobs/obs are the 'previous observation'); hist = history of the
     source state (used for naming a disagreement only); taint = get_option() keys no longer compared on this history."""
     kind = cmd['kind'] if not cmd['inject'] else 'fail-' + cmd['inject']
@@ -754,9 +790,10 @@ def judge(m, prev, cmd, res, hist, taint=()):
         V.append(('C08:unhandled-exception:' + kind, 'a meson command died with a Python traceback: ' + _flat((res['tail'] or res['obs']['tail'])[-300:])))
         return J
     try:
-        expect, m2 = model_step(m, cmd)
+        expect, m2 = model_step(m, cmd, strict_unknown)
     except Unspecified as e:
         return {'verdict': 'unspecified', 'reason': str(e), 'facts': []}
+    unknown = strict_unknown and expect == 'fail' and cmd['kind'] == 'configure' and not cmd['inject']
     if res['rc'] != 0:
         # "a configure or reconfigure that fails leaves every persisted value exactly as it was"
         moved = []
@@ -783,15 +820,26 @@ def judge(m, prev, cmd, res, hist, taint=()):
             V.append((cls, 'the model expects success, meson failed: ' + _flat(res['tail'][-300:])))
         if V:
             return J
-        J['facts'].append('failed-unmoved')
+        J['facts'].append('undeclared-option-rejected-unmoved' if unknown else 'failed-unmoved')
         J.update(verdict='state', m2=m)           # failed as allowed, nothing moved: the model does not move
         return J
     if expect == 'fail':
-        V.append(('C08:unexpected-success:' + kind, 'the command must fail (%s) but exited 0' % cmd['inject']))
+        if unknown:
+            V.append(('C08:unexpected-success:configure:undeclared-option-accepted',
+                      'meson configure accepted a value for an option that no option file declares (any more): %r; listed now: %r, cmd_line.txt %r'
+                      % (cmd['D'], sorted(res['pobs']['intro']), res['pobs']['cmdline'])))
+        else:
+            V.append(('C08:unexpected-success:' + kind, 'the command must fail (%s) but exited 0' % cmd['inject']))
         return J
     # success: compare the successor with the model
     if res['obs']['rc'] != 0:
-        V.append(('C08:observer-fails:' + kind, 'a plain setup --reconfigure of the reached state fails: ' + _flat(res['obs']['tail'][-300:])))
+        cls = 'C08:observer-fails:' + kind
+        if cmd['kind'] == 'editconf' and 'Unknown options' in res['obs']['tail']:
+            new, snew = VARIANTS[m2['conf']], sub_decl(m2['subconf'])
+            if any(k.split(':')[-1] not in GLOBAL_BUILTINS and (k not in new if ':' not in k else k.startswith('sub:') and k[4:] not in snew)
+                   for k in m2['cmd']):
+                cls = 'C08:observer-fails:editconf:removed-option-still-recorded'
+        V.append((cls, 'a plain setup --reconfigure of the reached state fails: ' + _flat(res['obs']['tail'][-300:])))
         return J
     want = model_predict(m2)
     got = res['obs']['msgs']
@@ -814,6 +862,13 @@ def judge(m, prev, cmd, res, hist, taint=()):
             invented = [x for x in extra if x[4:] not in ever]
             V.append(('C08:sub-option-file-deleted:%s:%s' % ('top-level-options-listed-for-subproject' if invented else 'options-stay', label),
                       '%s lists project options %s of a subproject without an option file, the model has none' % (label, extra)))
+        elif (missing and not extra and cmd['kind'] == 'editconf' and SUB_VARIANTS[m['subconf']] is None
+              and sorted(missing) == sorted('sub:' + k for k in sub_decl(m2['subconf']))):
+            # the subproject's option file was absent in the configured state and is back on disk: `meson configure`
+            # re-reads a changed option file, yet none of the file's options is there ("a new option gets its default")
+            V.append(('C08:sub-option-file-restored:not-noticed-by-configure:' + label,
+                      '%s lists no project option of the subproject although its option file is back (%s), the model has %s'
+                      % (label, sorted(gd), sorted(wi))))
         elif extra or missing:
             V.append(('C08:optset:%s:%s:%s' % (kind, label, '+'.join(['+' + x for x in extra] + ['-' + x for x in missing])),
                       '%s lists project options %s, the model has %s' % (label, sorted(gd), sorted(wi))))
@@ -871,6 +926,71 @@ def judge(m, prev, cmd, res, hist, taint=()):
 
 
 # ------------------------------------------------------------------------------------------------------------------
+# The composite-edit family: every history  [pre] ; composite edit ; [post]  (a full product, three levels, explored
+# with the same transition function, model and judge as the BFS).  A composite edit is ONE rewrite of an option file
+# that removes an option AND adds options (rename / replacement by another type / one out, two in; after the `edit add`
+# pre-step the same rewrites remove two and add one or two), of the top-level or of the subproject's option file, first
+# seen either by `setup --reconfigure` or by `meson configure -D<untouched option>`.  Clauses: "a removed one
+# vanishes" (not listed by introspection / meson configure, get_option() of everything else unchanged, and - strict -
+# `configure -D<removed>=v` is rejected as an unknown option), "a new option gets its default", every other option
+# "keeps the value it has"; then the post step checks that the state reached is an ordinary one (reconfigure, --wipe,
+# the reverse edit, setting the new option).
+FAMILY_PRE = ['configure -Ds=s1', 'configure -Dr=r1', 'configure -Dsub:o=o1', 'edit add', 'edit sub add']
+FAMILY_EDITS = [e % v for e in ('edit %s', 'edit sub %s', 'edit %s + configure -Ds=s1', 'edit sub %s + configure -Ds=s1')
+                for v in ('rename', 'swap', 'rm1add2')] + ['edit sub nofile + configure -Ds=s1']
+FAMILY_POST = ['configure -Dr=r1', 'configure -Dsub:o=o1', 'setup --reconfigure', 'setup --wipe',
+               'edit base', 'edit sub base + configure -Ds=s2']
+FAMILY_POST_THOROUGH = ['configure -Dr2=x2', 'configure -Dsub:o2=y2', 'edit base + configure -Ds=s2', 'edit sub base', 'configure -Ds=s2']
+
+
+def composite_family(ck, jobs, s0, viols):
+    """-> counters.  Violations are appended to `viols` (confirmed from scratch and reported with the BFS's)."""
+    global FRONTIER
+    post = FAMILY_POST + (FAMILY_POST_THOROUGH if ck.thorough else [])
+    cnt = {'transitions': 0, 'unspecified': 0, 'violating': 0, 'per_level': [], 'facts': {}, 'edits_agreeing': {},
+           'removed_vanished': 0, 'removed_vanished_seen_by_configure': 0, 'added_got_default': 0, 'others_kept_user_value': 0,
+           'removed_more_than_added': 0, 'added_at_least_as_many_as_removed': 0}
+    level = [s0]
+    for depth, names in ((1, FAMILY_PRE), (2, FAMILY_EDITS), (3, post)):
+        FRONTIER = level
+        nxt = list(level) if depth == 1 else []          # level 1: the empty pre-step stays
+        items = [(si, c) for si in range(len(level)) for c in names]
+        for si, cname, res, snapz in pmap(expand, items, jobs=jobs, init=worker_init):
+            st, cmd = level[si], CMD[cname]
+            cnt['transitions'] += 1
+            J = judge(st['m'], st['res'], cmd, res, st['hist'], (), strict_unknown=True)
+            hist = st['hist'] + [cname]
+            for f in J['facts']:
+                cnt['facts'][f] = cnt['facts'].get(f, 0) + 1
+            if J['verdict'] == 'unspecified':
+                cnt['unspecified'] += 1
+                continue
+            if J['verdict'] == 'violation':
+                cnt['violating'] += 1
+                for key, what in J['V']:
+                    viols.append((key, what, hist, res, None))
+                continue
+            m, m2 = st['m'], J['m2']
+            if depth == 2 and res['rc'] == 0:
+                # what this agreeing transition showed, in the property's words (the judge compared all of it)
+                cnt['edits_agreeing'][cname] = cnt['edits_agreeing'].get(cname, 0) + 1
+                old = {'top:' + k for k in VARIANTS[m['conf']]} | {'sub:' + k for k in sub_decl(m['subconf'])}
+                new = {'top:' + k for k in VARIANTS[m2['conf']]} | {'sub:' + k for k in sub_decl(m2['subconf'])}
+                if old - new and new - old:
+                    cnt['removed_vanished'] += len(old - new)
+                    cnt['added_got_default'] += len(new - old)
+                    if cmd['kind'] == 'editconf':
+                        cnt['removed_vanished_seen_by_configure'] += 1
+                    cnt['removed_more_than_added' if len(old - new) > len(new - old) else 'added_at_least_as_many_as_removed'] += 1
+                    if m['cmd'] and all(res['pobs']['cmdline'].get(k) == v for k, v in m['cmd'].items()):
+                        cnt['others_kept_user_value'] += 1
+            nxt.append({'m': m2, 'res': res, 'snap': snapz, 'hist': hist, 'taint': []})
+        cnt['per_level'].append(len(items))
+        level = nxt
+    cnt['histories_of_full_length'] = len(level)
+    return cnt
+
+
 FRONTIER = []     # list of state dicts, inherited by forked workers
 KNOWN_KEYS = set()
 
@@ -898,7 +1018,7 @@ def run_history(names):
             continue
         cmd = CMD[n]
         res, files2 = full_step(cmd, files, prev['variant'])
-        J = judge(m, prev, cmd, res, names[:i], taint)
+        J = judge(m, prev, cmd, res, names[:i], taint, strict_unknown=any(CMD[x]['tiers'] == '' for x in names))
         out.append((n, J, res))
         if J['verdict'] == 'violation' and J.get('taintable') and all(k in KNOWN_KEYS for k, _ in J['V']):
             taint = sorted(set(taint) | set(J['taintable']))
@@ -1059,6 +1179,10 @@ def main():
         t_levels.append(round(time.time() - t_lv, 1))
         level = nxt
     frontier_left = len(level) + unexpanded
+    t_fam = time.time()
+    n_viol_bfs = len(viols)
+    fam = composite_family(ck, jobs, s0, viols)
+    fam['wall_s'] = round(time.time() - t_fam, 1)
 
     # ---- violations: confirm twice from scratch (fresh directory, full history), then report --------------------
     per_key = {}
@@ -1123,6 +1247,14 @@ def main():
             ck.require(facts.get(f, 0) > 0, 'clause never exercised (option file of the subproject): ' + f)
         ck.require(sum(1 for s in states.values() if s['m']['subconf'] != 'base' and s['m']['over'].get('c')) > 0,
                    'no state with an edited option file of the subproject and an own value of its yielding combo')
+        # the composite-edit family
+        for e in FAMILY_EDITS:
+            ck.require(fam['edits_agreeing'].get(e, 0) >= 4, 'composite edit %r agreed with the model from %d pre-states only' % (e, fam['edits_agreeing'].get(e, 0)))
+        ck.require(fam['removed_vanished'] > 0 and fam['removed_vanished_seen_by_configure'] > 0 and fam['added_got_default'] > 0
+                   and fam['others_kept_user_value'] > 0 and fam['removed_more_than_added'] > 0 and fam['added_at_least_as_many_as_removed'] > 0,
+                   'composite-edit family: a clause was never exercised: %r' % (fam,))
+        ck.require(fam['facts'].get('undeclared-option-rejected-unmoved', 0) > 0, 'no `configure -D<removed option>` was seen to be rejected')
+        ck.require(fam['facts'].get('wipe-same', 0) + fam['facts'].get('wipe-rederived-differently', 0) > 0, 'composite-edit family: no --wipe behind a composite edit')
     for s in list(states.values())[1:40:8]:
         ck.sample({'history': s['hist'], 'get_option': s['res']['obs']['msgs'], 'cmd_line': s['res']['pobs']['cmdline']})
     ck.assume('one project (top: string s, combo c, integer i, boolean boom/late, removable r, addable n; subproject sub: yielding '
@@ -1144,12 +1276,17 @@ def main():
             transitions_by_kind=per_kind, clause_counters=facts, unspecified=unspec_reasons,
             violation_confirmations=2 * len(to_confirm), level_wall_s=t_levels, expanded_per_level=level_sizes,
             cpu_s_all_processes=round(sum(resource.getrusage(resource.RUSAGE_CHILDREN)[:2]) + sum(resource.getrusage(resource.RUSAGE_SELF)[:2]), 1))
+    ck.part('composite_edits', pre_steps=['<none>'] + FAMILY_PRE, edits=FAMILY_EDITS,
+            post_steps=FAMILY_POST + (FAMILY_POST_THOROUGH if ck.thorough else []), violations=len(viols) - n_viol_bfs, **fam)
+    n_trans += fam['transitions']
     ck.finish(states=len(states), transitions=n_trans, traces_validated_against_impl=n_trans,
-              skipped_unspecified=n_unspec, distinct_edge_classes=len(edge_classes),
+              skipped_unspecified=n_unspec + fam['unspecified'], distinct_edge_classes=len(edge_classes),
               rule='BFS over all command histories <= %d over %d commands from a fresh `meson setup`; product states merged on '
                    '(model state, introspected/configure-listed values, augments, cmd_line.txt, variants of the two option files, get_option() '
                    'observation); every transition is one distinct history whose every step was executed by the real CLI code and '
-                   'compared with the model; expansion capped at %d states in BFS order' % (depth, len(alphabet), max_expand),
+                   'compared with the model; expansion capped at %d states in BFS order; plus the full product [pre] ; composite option-file '
+                   'edit ; post (%d x %d x %d histories, part composite_edits)'
+                   % (depth, len(alphabet), max_expand, 1 + len(FAMILY_PRE), len(FAMILY_EDITS), len(FAMILY_POST) + (len(FAMILY_POST_THOROUGH) if ck.thorough else 0)),
               exhaustive=not capped, frontier_at_bound=frontier_left)
 
 
